@@ -81,6 +81,19 @@ def design (j : Json) : R Json := do
   return jObj [("missing", jList jElem missing), ("line", jList jElem padded),
                ("runs", jList (fun r => jList (fun e => jStr e.uid) r) (runs padded))]
 
-def handlers : List (String × Handler) := [("c08.calc", calcH), ("c08.design", design)]
+/-- the graph (edge list over uids) of the whole topology after completion: `toGraph` of the completed chains; chains
+without line elements (transceiver <-> ROADM) are chains too -/
+def graph (j : Json) : R Json := do
+  let chs ← fList getChain j "chains"
+  let c ← getSplit j
+  let dIn ← fF j "con_in"
+  let dOut ← fF j "con_out"
+  let eol ← fF j "eol"
+  let padding ← fF j "padding"
+  let done := chs.map (completeChain c dIn dOut eol padding)
+  return jObj [("edges", jList (fun e => Json.arr #[jStr e.1, jStr e.2]) (toGraph done)),
+               ("pairs", jList (fun e => Json.arr #[jStr e.1, jStr e.2]) (endpointPairs done))]
+
+def handlers : List (String × Handler) := [("c08.calc", calcH), ("c08.design", design), ("c08.graph", graph)]
 
 end Gnpy.Drv.C08
